@@ -639,7 +639,7 @@ fn load_hyperlinks(
         // Although it is normally a single cell, the ref can be a range like "B2:C3"
         let (row_start, column_start, row_end, column_end) =
             parse_range(cell_ref).map_err(XlsxError::Xml)?;
-        let tooltip = node.attribute("tooltip").map(str::to_string);
+        let tooltip = node.attribute("tooltip").map(decode_xlsx_escapes);
         let rel_id = node.attribute((
             "http://schemas.openxmlformats.org/officeDocument/2006/relationships",
             "id",
@@ -654,14 +654,14 @@ fn load_hyperlinks(
                 // An external link may also point to a location inside the target
                 // document. We keep it as a fragment of the target.
                 let target = match node.attribute("location") {
-                    Some(location) => format!("{target}#{location}"),
+                    Some(location) => format!("{target}#{}", decode_xlsx_escapes(location)),
                     None => target,
                 };
                 Link::External { target, tooltip }
             }
             None => {
                 let location = match node.attribute("location") {
-                    Some(location) if !location.is_empty() => location.to_string(),
+                    Some(location) if !location.is_empty() => decode_xlsx_escapes(location),
                     // a hyperlink with neither r:id nor location is malformed, skip it
                     _ => continue,
                 };
@@ -1082,7 +1082,7 @@ pub(super) fn load_sheet<R: Read + std::io::Seek>(
                         match formula_ref {
                             Some(_) => {
                                 // It's the anchor cell. We do not use the ref attribute in IronCalc
-                                let formula = formula_node.text().unwrap_or("").to_string();
+                                let formula = decode_xlsx_escapes(formula_node.text().unwrap_or(""));
                                 let context = format!("{sheet_name}!{cell_ref}");
                                 let formula = from_a1_to_rc(
                                     formula,
@@ -1172,7 +1172,7 @@ pub(super) fn load_sheet<R: Read + std::io::Seek>(
                             array_kind =
                                 CellArrayKind::ArrayFormula(column2 - column1 + 1, row2 - row1 + 1);
                         }
-                        let formula = formula_node.text().unwrap_or("").to_string();
+                        let formula = decode_xlsx_escapes(formula_node.text().unwrap_or(""));
                         let context = format!("{sheet_name}!{cell_ref}");
                         let formula = from_a1_to_rc(
                             formula,
@@ -1193,7 +1193,7 @@ pub(super) fn load_sheet<R: Read + std::io::Seek>(
                     }
                     "normal" => {
                         // Its a cell with a simple formula
-                        let formula = formula_node.text().unwrap_or("").to_string();
+                        let formula = decode_xlsx_escapes(formula_node.text().unwrap_or(""));
                         let context = format!("{sheet_name}!{cell_ref}");
                         let formula = from_a1_to_rc(
                             formula,
